@@ -162,7 +162,9 @@ func genJSON(rng *rand.Rand, depth int) string {
 	}
 }
 
-var reRules = []string{"re='^[a-z]+$'", "re='\\d{2}'", "re='^(ab|cd)$'", "re='a,b'", "re='^x\\'y$'", "re='^[A-Za-z0-9]{3,5}$'|msg", "re='[一-龥]'", "re='^a|b$'|must match"}
+var reRules = []string{"re='^[a-z]+$'", "re='\\d{2}'", "re='^(ab|cd)$'", "re='a,b'", "re='^x\\'y$'", "re='^[A-Za-z0-9]{3,5}$'|msg", "re='[一-龥]'", "re='^a|b$'|must match",
+	// a message that itself contains single quotes (quote-wrapped because of its comma, or an apostrophe): the pattern ends at ITS closing quote
+	"re='^[a-z]+$'|'lowercase only, please'", "re='^[a-z]+$'|it's lowercase only", "re='^(ab|cd)$'|'ab' or 'cd'"}
 
 var dateSepAlphabet = []string{"-", "/", ".", ":", " ", "_", ""}
 
